@@ -230,6 +230,9 @@ func genC11(seed uint64, withSpec bool) *Scenario {
 		add(op, "victim")
 	}
 	ns := pick(r, []int{1, 2, 3, 4, 6, 8, 12})
+	if deep() {
+		ns = pick(r, []int{2, 4, 8, 12, 20, 30})
+	}
 	if withSpec && ns > 4 {
 		ns = 4
 	}
